@@ -199,6 +199,23 @@ def r_validation_hands_back(repo, rep, R='R17.2'):
             bad.append(show(st.ret)[:120])
     if not n:
         raise AnalysisError('%s: %s never returns' % (REL, fn.name))
+    # ... and it only looks: nothing reached from its arguments is written, by a store / mutating method or by a numpy call
+    # that works in place (copy=False, out=<argument>)
+    al = effects.Alias({pd, ps_})
+    writes = [src(n_)[:60] for n_, _, _ in effects.mutations(fn, {pd, ps_})]
+    for st, o in SymExec(fn, unroll=1).run():
+        for e in st.events:
+            if e[0] == 'in-comp':
+                e = e[1:]
+            if e[0] != 'call':
+                continue
+            t = e[1]
+            kw = dict((k, v) for k, v in t[3] if k is not None)
+            in_place = kw.get('copy') == C(False) or ('out' in kw and (al.self_(kw['out']) or al.elems(kw['out'])))
+            if in_place and any(al.self_(a_) or al.elems(a_) for a_ in t[2]) and show(t)[:60] not in writes:
+                writes.append(show(t)[:60])
+    rep.check(not writes, R, w, '_type_check:read-only', 'the validation step changes nothing it is given',
+              '%s writes into its arguments (%s): scores of words and categories the dictionary does not mention are changed before the filter is applied' % (fn.name, writes[:2]))
     rep.check(not bad, R, w, '_type_check:hands-back', 'the validated document and score matrices are handed back as they were given (%d return paths)' % n,
               '%s returns %s instead of the objects it was given: the filter then changes a copy (the caller\'s matrices stay unfiltered) and the scores '
               'kept are converted values, not the original ones' % (fn.name, bad[:2]))
